@@ -38,11 +38,12 @@ type vRHCfg struct {
 	Readers map[uint64][]int // may contain peers of other DONs (ids >= 20)
 	Dest    uint64
 	Feed    uint64
+	saved   *vRHCfg // the configuration before everything was removed (kind empty-config), for the restoring step
 }
 
 func (c *vRHCfg) clone() *vRHCfg {
 	d := &vRHCfg{Oracles: append([]int{}, c.Oracles...), Chains: append([]uint64{}, c.Chains...), F: map[uint64]int{},
-		Readers: map[uint64][]int{}, Dest: c.Dest, Feed: c.Feed}
+		Readers: map[uint64][]int{}, Dest: c.Dest, Feed: c.Feed, saved: c.saved}
 	for k, v := range c.F {
 		d.F[k] = v
 	}
@@ -285,7 +286,11 @@ type vRHChange struct {
 }
 
 var vRHKinds = []string{"add-chain-to-oracle", "drop-chain-keep-others", "drop-dest-keep-others", "add-dest", "drop-oracle", "add-oracle",
-	"change-f", "rotate", "drop-chain", "add-chain", "swap", "several", "several", "failed-poll", "foreign-reader"}
+	"change-f", "rotate", "drop-chain", "add-chain", "swap", "several", "several", "failed-poll", "foreign-reader", "empty-config"}
+
+// after an empty-config step the next step is one of these whatever was planned: the old configuration again (the
+// contract answered one empty page in between) or a new role map built from nothing
+var vRHRestoreKinds = []string{"empty-page-then-same", "rebuild-after-empty"}
 
 // vRHMutate returns the next configuration; opts: keepDest = the destination chain stays configured,
 // extraChains = selectors that may be added as new chains
@@ -321,8 +326,13 @@ func vRHMutate(r *vRand, cur *vRHCfg, kind string, keepDest bool, extraChains []
 			note(o, ch)
 		}
 	}
+	depth := 0
 	var one func(kind string)
 	one = func(kind string) {
+		depth++
+		if depth > 6 {
+			return
+		}
 		o := vPick(r, c.Oracles)
 		switch kind {
 		case "add-chain-to-oracle":
@@ -469,7 +479,59 @@ func vRHMutate(r *vRand, cur *vRHCfg, kind string, keepDest bool, extraChains []
 			}
 		}
 	}
+	if len(cur.Chains) == 0 && cur.saved != nil {
+		// the contract holds no chain config at all (the step before was empty-config)
+		kind = vPick(r, vRHRestoreKinds)
+		chg.Kind = kind
+		c.saved = nil
+		if kind == "empty-page-then-same" {
+			c = cur.saved.clone()
+			c.saved = nil
+		} else {
+			chs := []uint64{cur.Dest}
+			for _, ch := range extraChains {
+				if ch != cur.Dest && (ch == cur.Feed || r.Chance(1, 2)) {
+					chs = append(chs, ch)
+				}
+			}
+			for _, ch := range chs {
+				c.addChain(ch, r.Range(1, 2), nil)
+			}
+		}
+		for _, ch := range c.Chains {
+			rs := c.Readers[ch]
+			if kind != "empty-page-then-same" {
+				rs = nil
+				for _, x := range c.Oracles {
+					if r.Chance(2, 3) {
+						rs = append(rs, x)
+					}
+				}
+				if len(rs) == 0 {
+					rs = []int{c.Oracles[0]}
+				}
+				c.Readers[ch] = rs
+			}
+			for _, x := range rs {
+				chg.Added = append(chg.Added, [2]int{x, int(ch)})
+				note(x, ch)
+			}
+		}
+		return c, chg
+	}
 	switch kind {
+	case "empty-config":
+		// every chain config is removed: the next successful poll answers with an empty first page
+		sv := cur.clone()
+		sv.saved = nil
+		for _, ch := range append([]uint64{}, c.Chains...) {
+			for _, x := range c.Readers[ch] {
+				chg.Removed = append(chg.Removed, [2]int{x, int(ch)})
+				note(x, ch)
+			}
+			c.dropChain(ch)
+		}
+		c.saved = sv
 	case "several":
 		for x := 0; x < r.Range(2, 4); x++ {
 			one(vPick(r, []string{"add-chain-to-oracle", "drop-chain-keep-others", "drop-dest-keep-others", "add-dest", "drop-oracle",
